@@ -34,9 +34,12 @@ type c19Params struct {
 	// InputFirst (used by C05): once the session is over and the remote side has been quiet, the user types
 	// before the remote side prints anything — every token as a read of its own — and all of it must arrive.
 	InputFirst bool `json:"input_first,omitempty"`
-	Bound      int  `json:"bound"`
-	Shard      int  `json:"shard"`
-	NShards    int  `json:"nshards"`
+	// Shell: the remote side is a shell that answers every Enter it is sent on its own (the re-prompt Enter the
+	// product types when it hands the terminal back) with a numbered prompt
+	Shell   bool `json:"shell,omitempty"`
+	Bound   int  `json:"bound"`
+	Shard   int  `json:"shard"`
+	NShards int  `json:"nshards"`
 }
 
 const zFinish = "**\x18B0800000000022d\r\x8a"
@@ -118,6 +121,8 @@ type c19Obs struct {
 	remoteCancelled  bool // the remote side itself sent a cancel sequence
 	inputFirst       string
 	helperLeft       int // helper processes still running when everything has settled
+	enters           int // lone Enters the remote shell received (Shell mode)
+	promptsShown     int // of the prompts it answered with, how many reached the terminal
 }
 
 func c19Exec(p c19Params) vs.ExecFn {
@@ -153,6 +158,21 @@ func c19Exec(p c19Params) vs.ExecFn {
 				header += string(zmodemCancelFullSequence)
 			case "cannot-open":
 				header = "sz: cannot open /no/such: No such file\r\n" + header
+			}
+			enters, prompts := 0, 0
+			if p.Shell {
+				c2s.OnWrite = func(b []byte) {
+					if len(b) == 1 && b[0] == '\r' {
+						enters++
+					}
+				}
+				vs.GoDaemon("remote-shell", func() {
+					for {
+						vs.WaitUntil("shell.enter", func() bool { return prompts < enters })
+						prompts++
+						s2c.Write([]byte(fmt.Sprintf("PROMPT-%d$ ", prompts)))
+					}
+				})
 			}
 			gotCancel := func() bool { return bytes.Contains(c2s.Written, zmodemCancelSubSequence) }
 			fromClient := func() bool { return len(c2s.Written) > 0 }
@@ -260,6 +280,8 @@ func c19Exec(p c19Params) vs.ExecFn {
 			o.probe1 = bytes.Count(term.Written, []byte("probe-out-1"))
 			o.probe2 = bytes.Count(term.Written, []byte("probe-out-2"))
 			o.probeIn = bytes.Count(c2s.Written, []byte("probe-in"))
+			o.enters = enters
+			o.promptsShown = bytes.Count(term.Written, []byte("PROMPT-"))
 			o.helperStarts = helper.started
 			for _, c := range helper.cmds {
 				if !c.Exited {
@@ -290,6 +312,8 @@ func c19Exec(p c19Params) vs.ExecFn {
 		case strings.HasPrefix(p.Server, "cancel-before") && p.Veto == "" && p.CtrlCMs < 0 && s.Stall == 0 && !bytes.Contains(o.term, []byte("remote: transfer ended")):
 			// (without a Ctrl-C: after one, output is discarded until the remote side has been quiet, by design)
 			violation = "what the remote side printed after cancelling (before any helper ran) never reached the terminal"
+		case p.Shell && s.Stall == 0 && o.promptsShown != o.enters:
+			violation = fmt.Sprintf("the remote shell answered %d Enter(s) with a prompt, %d of them reached the terminal (the first output after the session is swallowed)", o.enters, o.promptsShown)
 		case o.helperLeft > 0:
 			violation = fmt.Sprintf("%d local helper process(es) still running after the session ended and everything settled: never told to stop nor killed", o.helperLeft)
 		case o.probeIn != 1:
@@ -387,6 +411,16 @@ func init() {
 					}
 				}
 				for _, veto := range []string{"cancel", "cannot-open"} {
+					if veto == "cancel" {
+						// the remote side is an interactive shell that answers the hand-back Enter with a prompt
+						for _, h := range []string{"run1", "exit1", "silent"} {
+							for _, srv := range []string{"finish", "cancel-after", "keeps"} {
+								for _, cc := range []int{-1, 150} {
+									jobs = append(jobs, vs.MkJob(fmt.Sprintf("shell up=%v helper=%s server=%s ctrlc=%d b%d", up, h, srv, cc, bound), c19Params{Upload: up, Helper: h, Server: srv, CtrlCMs: cc, Shell: true, Bound: bound, NShards: 1}))
+								}
+							}
+						}
+					}
 					jobs = append(jobs, vs.MkJob(fmt.Sprintf("up=%v veto=%s", up, veto), c19Params{Upload: up, Helper: "run1", Server: "finish", CtrlCMs: -1, Veto: veto, Bound: bound, NShards: 1}))
 				}
 			}
